@@ -145,7 +145,7 @@ def run(tier, seed, replay=None):
                     except Exception: swaps.append(-1)              # the loop variable is not readable any more: only the number of swaps is compared
                     rec = (U * S.to(U.dtype)) @ Vh
                     nm = float(mat.abs().pow(2).sum().sqrt())
-                    if float((rec - mat).abs().pow(2).sum().sqrt()) > 1e-12 * nm + 1e-300: svd_bad.append(list(mat.shape))
+                    if not (float((rec - mat).abs().pow(2).sum().sqrt()) <= 1e-12 * nm + 1e-300): svd_bad.append(list(mat.shape))
                     return U, S, Vh
                 _ex.SVD = spy_svd
                 try:
@@ -188,12 +188,12 @@ def run(tier, seed, replay=None):
         if got_shape != want_shape or history.wf_failures(y):
             V.fail("%s: result does not have exactly the requested mode sizes" % kind, dict(desc, got=got_shape, want=want_shape)); continue
         nrm = float(ref.abs().pow(2).sum().sqrt()); err = float((y.full() - ref).abs().pow(2).sum().sqrt())
-        if err > CONST * eps * nrm + (1e-4 if cancel[0] else 1e-11) * nrm:
+        if not (err <= CONST * eps * nrm + (1e-4 if cancel[0] else 1e-11) * nrm):
             V.fail("%s: value differs from the dense result by more than %g*eps" % (kind, CONST), dict(desc, rel_err=err / max(nrm, 1e-300)))
         elif cplx and nrm > 0 and not cancel[0]:
             j = int(ref.abs().reshape(-1).argmax())
             a, b = complex(y.full().reshape(-1)[j]), complex(ref.reshape(-1)[j])
-            if abs(a - b) > (CONST * eps + 1e-10) * abs(b) * 3: V.fail("%s: phase of the largest entry changed" % kind, dict(desc, got=str(a), want=str(b)))
+            if not (abs(a - b) <= (CONST * eps + 1e-10) * abs(b) * 3): V.fail("%s: phase of the largest entry changed" % kind, dict(desc, got=str(a), want=str(b)))
         if y.cores[0].dtype != dt: V.fail("%s: dtype changed" % kind, desc)
     n_coq = 0
     if ok_make and coq_cases:
